@@ -599,6 +599,9 @@ func (a *Array) PopIterate(fn ArrayPopIterationFunc) error {
 		inlined:   inlined,
 	}
 
+	// All elements are removed, so no mutable element is tracked anymore.
+	a.mutableElementIndex = nil
+
 	// Save root slab
 	if !a.Inlined() {
 		err = storeSlab(a.Storage, a.root)
